@@ -57,13 +57,13 @@ def key_of_name(n):
     if n.startswith("ABS_"):
         return (-1,) + key_of_name(n[4:])
     t, i = n.split("_")
-    return ({"B": 1, "E": 2}[t], int(i))
+    return ({"B": 1, "E": 2, "N": 3}[t], int(i))
 
 
 def name_of_key(k):
     if k[0] == -1:
         return "ABS_" + name_of_key(k[1:])
-    return {1: "B", 2: "E"}[k[0]] + "_" + str(k[1])
+    return {1: "B", 2: "E", 3: "N"}[k[0]] + "_" + str(k[1])
 
 
 def ckey(k):
@@ -156,6 +156,31 @@ def gen_model(rng, near_tie=False, big=False):
             "defer": rng.random() < (0.75 if ne == 0 else 0.3)}
 
 
+def nkey(k):
+    return (3, k)
+
+
+def gen_int_model(rng):
+    """a model of the same shape with 1-2 general INTEGER variables (vtype="I", a documented variable type of the interface) inside
+    the equalities, e.g. a number of extra copies 0..3: they are no binaries, so no yielded tuple may name them and no cut may use them"""
+    c = gen_model(rng)
+    c["prods"] = [p for p in c["prods"]]
+    if not c["eq"]:
+        c["eq"] = [{"co": [[0, F(1)]], "ce": F(1), "cov": F(rng.randint(0, 8), 2), "lb": None, "ub": None}]
+        c["defer"] = False
+    ints = []
+    for k in range(rng.choice([1, 1, 2])):
+        lb = rng.choice([0, 0, 0, 1, -1])
+        # (an integer variable of [0, 1] IS a binary for OR-tools and for the interface: not generated)
+        ints.append({"lb": lb, "ub": lb + rng.choice([1, 2, 3, 3] if lb else [2, 2, 3]), "obj": rng.choice([F(0), F(1, 10), F(1, 2), F(1)])})
+    c["ints"] = ints
+    for e in c["eq"]:
+        e["cn"] = [[k, rng.choice([F(1, 2), F(1), F(1), F(2)])] for k in range(len(ints)) if rng.random() < 0.7]
+    if not any(e["cn"] for e in c["eq"]):
+        c["eq"][0]["cn"] = [[0, F(1)]]
+    return c
+
+
 def to_json(c):
     def cv(x):
         if isinstance(x, F):
@@ -177,6 +202,10 @@ def from_json(c):
     d["obj"] = [[int(i), F(x)] for i, x in c["obj"]]
     d["abs"] = {k: F(v) for k, v in c["abs"].items()}
     d["const"], d["gap"] = F(c["const"]), F(c["gap"])
+    if c.get("ints"):
+        d["ints"] = [{"lb": int(n["lb"]), "ub": int(n["ub"]), "obj": F(n["obj"])} for n in c["ints"]]
+        for e, e0 in zip(d["eq"], c["eq"]):
+            e["cn"] = [[int(k), F(x)] for k, x in e0.get("cn", [])]
     return d
 
 
@@ -205,15 +234,21 @@ def exact_table(c):
                 break
         if not ok:
             continue
-        o = c["const"] + sum(x * bits[i] for i, x in c["obj"])
-        for j, e in enumerate(c["eq"]):
-            v = (e["cov"] - sum(x * bits[i] for i, x in e["co"])) / e["ce"]
-            if (e["lb"] is not None and v < e["lb"]) or (e["ub"] is not None and v > e["ub"]):
-                ok = False
-                break
-            o += c["abs"].get(str(j), F(1)) * abs(v)
-        if ok:
-            out.append((bits, frozenset(f"B_{i}" for i in range(nb) if bits[i]), o))
+        # general integer variables: the objective of an assignment of the BINARIES is the best one over all their values
+        best = None
+        for nv in itertools.product(*[range(n["lb"], n["ub"] + 1) for n in c.get("ints", [])]):
+            o = c["const"] + sum(x * bits[i] for i, x in c["obj"]) + sum(n["obj"] * v for n, v in zip(c.get("ints", []), nv))
+            okn = True
+            for j, e in enumerate(c["eq"]):
+                v = (e["cov"] - sum(x * bits[i] for i, x in e["co"]) - sum(x * nv[k] for k, x in e.get("cn", []))) / e["ce"]
+                if (e["lb"] is not None and v < e["lb"]) or (e["ub"] is not None and v > e["ub"]):
+                    okn = False
+                    break
+                o += c["abs"].get(str(j), F(1)) * abs(v)
+            if okn and (best is None or o < best):
+                best = o
+        if best is not None:
+            out.append((bits, frozenset(f"B_{i}" for i in range(nb) if bits[i]), best))
     return out
 
 
@@ -233,8 +268,11 @@ def build_impl(c, lpi):
         lb = -m.INF if e["lb"] is None else float(e["lb"])
         ub = m.INF if e["ub"] is None else float(e["ub"])
         E.append(m.addVar(lb=lb, ub=ub, name=f"{pE}_{j}"))
+    N = [m.addVar(vtype="I", lb=n["lb"], ub=n["ub"], name=f"N_{k}") for k, n in enumerate(c.get("ints", []))]
     for j, e in enumerate(c["eq"]):
         expr = m.quicksum(float(x) * B[i] for i, x in e["co"]) + float(e["ce"]) * E[j]
+        if e.get("cn"):
+            expr = expr + m.quicksum(float(x) * N[k] for k, x in e["cn"])
         m.addConstr(expr <= float(e["cov"]), name=f"CCOV_{j}")     # as cn.py/major.py/minor.py: a <= / >= pair
         m.addConstr(expr >= float(e["cov"]), name=f"CCOV_{j}")
     for k, r in enumerate(c["rows"]):
@@ -248,6 +286,8 @@ def build_impl(c, lpi):
     coeffs = {f"{pE}_{j}": float(x) for j, x in c["abs"].items()}
     coeffs[f"{pE}_999"] = 7.0                                           # a name that is not a term: must be ignored
     o = m.quicksum(float(x) * B[i] for i, x in c["obj"])
+    if N:
+        o = o + m.quicksum(float(n["obj"]) * N[k] for k, n in enumerate(c["ints"]))
     if E or not c.get("defer"):
         o = o + m.abssum(E, coeffs=coeffs)
     if c["const"] != 0:
@@ -268,6 +308,11 @@ def run_impl(c):
             # values straight from the back end's own variable list (the wrapper's variables() is what solutions() itself reads:
             # the predicate compares the yielded names with the binaries the solver has at 1)
             vals = {v.name(): v.solution_value() for v in m.model.variables()}
+            if c.get("ints"):
+                # the interface's own typed read-back of the integer variables (lpinterface.getValue): an int, never a bool
+                for v in m.model.variables():
+                    if v.name().startswith("N_"):
+                        vals["typed:" + v.name()] = m.getValue(v)
             ys.append((obj, tuple(names), vals, st))
             if len(ys) >= cap:
                 runaway = True
@@ -278,6 +323,8 @@ def run_impl(c):
         def f(n):
             if n.startswith("ABS_"):
                 return "ABS_" + f(n[4:])
+            if n.startswith("typed:"):
+                return n
             t, i = n.split("_", 1)
             return {"B": "E", "E": "B"}.get(t, t) + "_" + i
         ys = [(obj, tuple(f(n) for n in names), {f(k): v for k, v in vals.items()}, st) for obj, names, vals, st in ys]
@@ -296,9 +343,11 @@ def coq_lp(c):
     vs = [f"({ckey(bkey(i))}, KBin)" for i in range(nb)]
     for j, e in enumerate(c["eq"]):
         vs.append(f"({ckey(ekey(j))}, KCont {common.copt(e['lb'], cq)} {common.copt(e['ub'], cq)})")
+    for k, n in enumerate(c.get("ints", [])):
+        vs.append(f"({ckey(nkey(k))}, KInt {cq(F(n['lb']))} {cq(F(n['ub']))})")
     rows = []
     for j, e in enumerate(c["eq"]):
-        rows.append(crow([(x, bkey(i)) for i, x in e["co"]] + [(e["ce"], ekey(j))], "eq", e["cov"]))
+        rows.append(crow([(x, bkey(i)) for i, x in e["co"]] + [(e["ce"], ekey(j))] + [(x, nkey(k)) for k, x in e.get("cn", [])], "eq", e["cov"]))
     for r in c["rows"]:
         rows.append(crow([(x, bkey(i)) for i, x in r["t"]], r["rel"], r["rhs"]))
     es = clist([ekey(j) for j in range(ne)], ckey)
@@ -306,12 +355,18 @@ def coq_lp(c):
     coef = "(fun v => match alookup vkey_eqb v %s with Some q => q | None => 1%%Q end)" % clist(
         sorted(c["abs"].items()), lambda jc: f"({ckey(ekey(int(jc[0])))}, {cq(jc[1])})")
     return ("{| lp_vars := %s ++ abssum_vars %s; lp_rows := %s%s ++ abssum_rows %s; lp_obj := %s ++ abssum_lin %s %s; lp_const := %s |}"
-            % (clist(vs), es, clist(rows), prods, es, clin([(x, bkey(i)) for i, x in c["obj"]]), coef, es, cq(c["const"])))
+            % (clist(vs), es, clist(rows), prods, es,
+               clin([(x, bkey(i)) for i, x in c["obj"]] + [(n["obj"], nkey(k)) for k, n in enumerate(c.get("ints", []))]), coef, es, cq(c["const"])))
 
 
 def coq_term(c, advice):
     adv = clist(advice, lambda s: clist(sorted(s), ckey))
     lim = common.copt(c["limit"], cz)
+    if c.get("ints"):
+        # outside the class of the reference solver Brute (shaped m = false): the model gives the rows, kinds and binaries of the LP;
+        # the yields are judged by the property predicate against the exhaustive table, and the enumeration theorems (C05_enum_*)
+        # cover the loop for any solver meeting the contract
+        return (f"(let m := {coq_lp(c)} in OL [o_bool (shaped m); OL []; o_list o_key (binaries m); o_lp m])")
     return (f"(let m := {coq_lp(c)} in OL [o_bool (shaped m); run_enum_advised here {cq(c['gap'])} {lim} {adv} m; table m; o_lp m])")
 
 
@@ -384,7 +439,7 @@ def check_values(c, vals, obj):
         if min(abs(x), abs(x - 1)) > 1e-6:
             bad.append(f"B_{i} not integral: {x}")
     for j, e in enumerate(c["eq"]):
-        v = sum(float(x) * B[i] for i, x in e["co"]) + float(e["ce"]) * E[j]
+        v = sum(float(x) * B[i] for i, x in e["co"]) + float(e["ce"]) * E[j] + sum(float(x) * vals[f"N_{k}"] for k, x in e.get("cn", []))
         if abs(v - float(e["cov"])) > FEAS_TOL * (1 + abs(float(e["cov"]))):
             bad.append(f"equality {j}: {v} != {float(e['cov'])}")
         if e["lb"] is not None and E[j] < float(e["lb"]) - FEAS_TOL:
@@ -393,6 +448,13 @@ def check_values(c, vals, obj):
             bad.append(f"E_{j} above ub")
         if A[j] + FEAS_TOL < abs(E[j]):
             bad.append(f"ABS_E_{j} = {A[j]} < |E_{j}| = {abs(E[j])}")
+    Nv = [vals[f"N_{k}"] for k in range(len(c.get("ints", [])))]
+    for k, n in enumerate(c.get("ints", [])):
+        if abs(Nv[k] - round(Nv[k])) > 1e-6 or not (n["lb"] - 1e-6 <= Nv[k] <= n["ub"] + 1e-6):
+            bad.append(f"N_{k} = {Nv[k]} is no integer of [{n['lb']}, {n['ub']}]")
+        t = vals.get(f"typed:N_{k}")
+        if type(t) is not int or t != round(Nv[k]):
+            bad.append(f"typed read-back of the integer variable N_{k} (solver value {Nv[k]}) is {t!r} of type {type(t).__name__}")
     for k, r in enumerate(c["rows"]):
         v = sum(float(x) * B[i] for i, x in r["t"])
         if (r["rel"] in ("le", "eq") and v > float(r["rhs"]) + FEAS_TOL) or (r["rel"] in ("ge", "eq") and v < float(r["rhs"]) - FEAS_TOL):
@@ -401,7 +463,7 @@ def check_values(c, vals, obj):
         want = 1 if all(B[t] > 0.5 for t in p["ts"]) else 0
         if abs(B[p["res"]] - want) > 1e-6:
             bad.append(f"product B_{p['res']} = {B[p['res']]} but AND = {want}")
-    o = float(c["const"]) + sum(float(x) * B[i] for i, x in c["obj"]) + sum(float(c["abs"].get(str(j), 1)) * A[j] for j in range(len(E)))
+    o = float(c["const"]) + sum(float(x) * B[i] for i, x in c["obj"]) + sum(float(n["obj"]) * Nv[k] for k, n in enumerate(c.get("ints", []))) + sum(float(c["abs"].get(str(j), 1)) * A[j] for j in range(len(E)))
     if not close(o, obj, extra=1e-6):
         bad.append(f"reported objective {obj} but the point evaluates to {o}")
     return bad
@@ -833,6 +895,15 @@ def evaluate_enum(chk, cases, stream="enum", thorough=False, with_model=True):
             continue
         # ---- step 3: correspondence
         v = vals[k]
+        if c.get("ints"):
+            mb = sorted(name_of_key(tuple(x)) for x in v[2])
+            if v[0] != 0 or mb != sorted(f"B_{i}" for i in range(c["nb"])):
+                chk.mismatch("int-model-binaries", jc, [v[0], mb], None)
+            mvs, mrows, mobj, mconst = d_lp(v[3])
+            ivs, irows, iobj, iconst = snap_canon(im["snap"])
+            if (sorted(mvs.items()), merge_eq(mrows), mobj, mconst) != (sorted(ivs.items()), irows, iobj, iconst):
+                chk.mismatch("model-rows", jc, repr((sorted(mvs.items()), merge_eq(mrows), mobj, mconst))[:1500], repr((sorted(ivs.items()), irows, iobj, iconst))[:1500])
+            continue
         if v[0] != 1:
             chk.mismatch("generator-outside-Brute.shaped", jc, "shaped m = false", None)
         mtable = sorted((common.dq(q), tuple(sorted(name_of_key(tuple(x)) for x in ks))) for q, ks in v[2])
@@ -1097,6 +1168,8 @@ def run(chk):
     B = 600
     for k in range(0, len(cases), B):
         evaluate_enum(chk, cases[k:k + B], thorough=not q)
+    # --- the same with general integer variables (vtype="I") among the error equalities
+    evaluate_enum(chk, [gen_int_model(rng) for _ in range(60 if q else 600)], stream="enum-int", thorough=not q)
     tm["enum"] = time.time() - t1
     t1 = time.time()
     # --- near ties (documented resolution of the back end)
